@@ -999,6 +999,19 @@ func TestVerifC20Directed(t *testing.T) {
 			for _, s := range seqs {
 				vf20RunSeq(t, st, env, true, s)
 			}
+			// README "Custom Handshake": 3) extensions (ApplyPreset), 4) set session: HelloCustom, preset applied before the setter
+			for _, drop := range []string{"psk", "ticket"} {
+				if cid, err := vf20NewIdent(p, map[string]bool{drop: true}); err == nil && ((drop == "psk" && cid.HasTicket && id.HasPSK) || (drop == "ticket" && cid.HasPSK)) {
+					cenv := vf20NewEnv(cid, sv, uint64(sv)+3)
+					if drop == "psk" {
+						vf20RunSeq(t, st, cenv, true, []vf20Op{{Kind: "T", Variant: "forged"}, {Kind: "H"}})
+						vf20RunSeq(t, st, cenv, true, []vf20Op{{Kind: "S", Variant: "real"}, {Kind: "B"}, {Kind: "H"}})
+					} else {
+						vf20RunSeq(t, st, cenv, true, []vf20Op{{Kind: "P", Variant: "forged"}, {Kind: "H"}})
+						vf20RunSeq(t, st, cenv, true, []vf20Op{{Kind: "W"}, {Kind: "P", Variant: "real"}, {Kind: "H"}})
+					}
+				}
+			}
 			// README example: SetSessionState without a cache => "session is disabled"
 			vf20RunSeq(t, st, env, false, []vf20Op{{Kind: "S", Variant: "forged"}, {Kind: "H"}})
 			vf20RunSeq(t, st, env, false, []vf20Op{{Kind: "C", Variant: "warm"}, {Kind: "S", Variant: "forged"}, {Kind: "H"}})
